@@ -279,6 +279,16 @@ class RobotDriver:
             nxt = self.next_alarm()
             now = now_us()
             hs.stepTimingAsync(max(1, (nxt - now) if nxt else 20000))
-        self.thread.join(self.HANG_S)
+        # the wake-up of the simulated notifier can get lost, and the thread may have armed its next alarm only after
+        # the step above (it was between two waits): keep stepping to whatever alarm is armed until the thread is gone
+        deadline = time.time() + self.HANG_S
+        while True:
+            self.thread.join(0.05)
+            if not self.thread.is_alive() or time.time() > deadline:
+                break
+            nxt = self.next_alarm()
+            now = now_us()
+            self.pokes += 1
+            hs.stepTimingAsync((nxt - now) if (nxt is not None and nxt > now) else 0)
         if self.thread.is_alive():
             raise HarnessError("robot thread did not end after endCompetition()")
